@@ -65,6 +65,23 @@ Arguments ANamed {form} id.
 Arguments holds {env form} sem e b a.
 Arguments path_constraints_hold {env form} sem e cs.
 
+(* the constraint set of a path, as a list without repetition: the first occurrences of the
+   simplified constraints that are not literally `true` (acc = what is already there) *)
+Section ConstraintSet.
+  Variable cond : Type.
+  Variable cond_eqb : cond -> cond -> bool.
+  Variable simp : cond -> cond.
+  Variable is_true : cond -> bool.
+  Fixpoint add_all (acc cs : list cond) : list cond :=
+    match cs with
+    | [] => acc
+    | c :: r =>
+        let c' := simp c in
+        if is_true c' || existsb (cond_eqb c') acc then add_all acc r
+        else add_all (acc ++ [c']) r
+    end.
+End ConstraintSet.
+
 (* ---- C04: solver value syntaxes (SMT-LIB 2.6 section 3.1: <binary> #b[01]+,
    <hexadecimal> #x[0-9a-fA-F]+, and the bit-vector literal (_ bvK W) with K decimal) --- *)
 Definition digit_char (d : Z) : Ascii.ascii :=
